@@ -122,7 +122,7 @@ def c07_2(ctx: Ctx):
     ctx.check(ok, ro, ins[0].node if ins else ro.node, "instructions are decoded when any modification needs them", "decode condition changed")
 
 
-@rule("C07.3", ["C07"], "ENTRY -> 0, EXIT -> before the terminator, ANYWHERE -> boundaries not after the terminator", 6)
+@rule("C07.3", ["C07", "C01"], "ENTRY -> 0, EXIT -> before the terminator, ANYWHERE -> boundaries not after the terminator", 6)
 def c07_3(ctx: Ctx):
     repo = ctx.repo
     po = repo.func("scopes._potential_offsets_in_block")
